@@ -31,7 +31,30 @@ ME_TB = TB_COMMON + [
 def me_thms(names):
     return [("GcpVerif.Proofs.ME", "GcpVerif.ME." + n) for n in names]
 
+POOL_TB = TB_COMMON + [
+    "modelled, not verified: gRPC's side of the balancer contract as played by the fake ClientConn (NewSubConn fails for an empty address list or on request; state reports arbitrary), Go map iteration order (the order of a new picker's ready list is an input of the model step, reported by the harness), the reflective key extraction on the harness's message type (C11 covers the general case)",
+    "virtual clock: time.Now() in the package sources is rewritten to the harness clock by a regenerated overlay copy (bin/overlay.py); the rewrite refuses other wall-clock reads",
+    "white-box digest: the harness reads the balancer's maps and counters in-package after every operation",
+]
+
+def pool_thms(names):
+    return [("GcpVerif.Proofs.Pool", "GcpVerif.Pool." + n) for n in names]
+
+def pool_prop(thms, extra_assumptions=()):
+    return {"harnesses": ["pool"], "lake_targets": ["GcpVerif"], "theorems": pool_thms(thms),
+            "trusted_base": POOL_TB, "assumptions": list(extra_assumptions)}
+
 PROPS = {
+    "C01": pool_prop([]),
+    "C02": pool_prop([], ["placement and increment are treated as one atomic step (exact for picks on one picker; picks on different pickers may interleave scan and increment)"]),
+    "C03": pool_prop([], ["size bound: minSize <= maxSize and no Shutdown report for a current pool member (known finding K6)"]),
+    "C04": pool_prop([]),
+    "C05": pool_prop([]),
+    "C06": pool_prop([], ["wall-clock bounds are observed by the harness watchdog (3 s per call), not proved"]),
+    "C07": pool_prop([], ["unresponsive_detection_ms * 2^k < 2^32 (the Go code computes the window in uint32; known finding K2)"]),
+    "C08": pool_prop([]),
+    "C09": pool_prop([], ["fairness: the cursor does not pass 2^32-1 inside the window unless n divides 2^32 (known finding K1); no Shutdown report for a pool member"]),
+    "C20": pool_prop([]),
     "C13": {
         "harnesses": ["me"], "lake_targets": ["GcpVerif"],
         "theorems": me_thms(["c13_mem_holds", "c13_mem_init", "c13_unavail_excluded_holds", "c13_noavail_holds", "c13_empty_holds", "reach_inv"]),
